@@ -79,6 +79,9 @@ func (n *node[T, N]) splitIfNeeded() {
 		if len(n.contents) >= n.threshold {
 			hw := n.rect.Width / 2
 			hh := n.rect.Height / 2
+			if hw <= 0 && hh <= 0 {
+				return // Too small to subdivide any further
+			}
 			n.children[0] = &node[T, N]{
 				rect: geom.Rect[T]{
 					Point: n.rect.Point,
